@@ -138,6 +138,9 @@ def run(ctx):
                 zero = foldc(v.test.comparators[0])
                 if isinstance(v.test.ops[0], (ast.Lt, ast.LtE)):
                     pos, neg = neg, pos
+                # only values already known to be out of range reach the clamp, so comparing with 0 or with either bound picks the same side
+                if zero in (LIMIT, -LIMIT) and tv in ("data", "int(data)"):
+                    zero = 0
                 ok = pos == LIMIT and neg == -LIMIT and zero == 0 and tv in ("data", "int(data)")
                 why = "" if ok else f"clamps to {pos} / {neg} by the sign of {tv}"
         except Exception:
@@ -174,7 +177,11 @@ def run(ctx):
     consts = sorted({n.value for n in ast.walk(flt) if isinstance(n, ast.Constant) and isinstance(n.value, float)})
     ok = len(consts) == 1 and consts[0] < float("inf") and consts[0] > 1e308 and A.norm(flt).count(repr(consts[0])) == 4
     ctx.ob("C38.D2-bounds", cname(f, None, "float comparison and clamp use the same finite bound"), ok, "" if ok else f"float bounds {consts}", where=where(f, flt))
-    ok = "float(data)" in A.norm(flt.test)
+    # every comparison of the float branch (in its test or in nested tests) compares float(data), never the raw value
+    cmps_ = [n for n in ast.walk(flt) if isinstance(n, ast.Compare) and any(isinstance(c_, ast.Constant) and isinstance(c_.value, float) or
+                                                                              (isinstance(c_, ast.UnaryOp) and isinstance(c_.operand, ast.Constant))
+                                                                              for c_ in [n.left] + list(n.comparators))]
+    ok = bool(cmps_) and all(any(A.norm(x) == "float(data)" for x in [n.left] + list(n.comparators)) for n in cmps_)
     ctx.ob("C38.D1-numeric-types-covered", cname(f, None, "narrow numpy floats are compared as Python floats"), ok,
            "" if ok else "a float32 infinity is compared after a lossy cast of the bound and passes", where=where(f, flt))
 
